@@ -496,6 +496,61 @@ Section Step.
   Qed.
 End Step.
 
+(* argparse targets: the same reduction.  parse.argparse_ast uses the docstring constant through the docstring-derived
+   IR, and through its text only at a  return (..., ...)  statement *)
+Lemma argparse_step_indep : forall di fb fb' st node,
+    is_tuple_return node = false -> argparse_step di fb st node = argparse_step di fb' st node.
+Proof.
+  intros di fb fb' st node H. unfold argparse_step.
+  destruct (argparse_stmt_declined node); [reflexivity|].
+  destruct node as [n a b d r|n bs b d|t a v|ts v|e|e|t h bl]; try reflexivity.
+  destruct e as [e|]; [|reflexivity].
+  destruct e; try reflexivity. discriminate H.
+Qed.
+
+Lemma argparse_loop_indep : forall di fb fb' body st,
+    forallb (fun s => negb (is_tuple_return s)) body = true ->
+    argparse_loop di fb st body = argparse_loop di fb' st body.
+Proof.
+  intros di fb fb' body. induction body as [|x r IH]; intros st H; [reflexivity|].
+  cbn [forallb] in H. apply andb_true_iff in H. destruct H as [Hx Hr]. apply negb_true_iff in Hx.
+  cbn [argparse_loop]. rewrite (argparse_step_indep di fb fb' st x Hx).
+  destruct (argparse_step di fb' st x) as [st'|e]; [|reflexivity]. cbn [bind]. apply IH. exact Hr.
+Qed.
+
+Definition argparse_doc_equiv (a b : stmt) : Prop :=
+  exists nm args d1 d2 rest decos rets,
+    a = SFunc nm args (SExpr (EConst (VStr d1)) :: rest) decos rets
+    /\ b = SFunc nm args (SExpr (EConst (VStr d2)) :: rest) decos rets
+    /\ argparse_doc_ir_of_const (Some d1) = argparse_doc_ir_of_const (Some d2)
+    /\ forallb (fun s => negb (is_tuple_return s)) rest = true.
+
+Lemma argparse_doc_equiv_parse : forall a b,
+    argparse_doc_equiv a b -> parse_argparse_node a = parse_argparse_node b.
+Proof.
+  intros a b [nm [args [d1 [d2 [rest [decos [rets [Ea [Eb [Hd Hr]]]]]]]]]]. subst a b.
+  unfold parse_argparse_node. cbn [docstring_of]. rewrite Hd.
+  unfold parse_argparse_ast. cbn [is_func_other docstring_of tl].
+  destruct (argparse_doc_ir_of_const (Some d2)) as [di|e]; [|reflexivity]. cbn [bind].
+  rewrite (argparse_loop_indep di (SExpr (EConst (VStr d1)) :: rest) (SExpr (EConst (VStr d2)) :: rest) rest _ Hr).
+  reflexivity.
+Qed.
+
+Lemma written_form_argparse : forall (as_written : stmt -> stmt) (w : nat) (pt : ptable) (it ww : bool),
+    (forall i o n, emit_inst w pt KArgparse i o = Ok n -> argparse_doc_equiv (as_written n) n) ->
+    WRITTEN_PARSE_law as_written w pt it ww KArgparse.
+Proof.
+  intros as_written w pt it ww H i o n He. cbn [parse_node_inst]. apply argparse_doc_equiv_parse. apply (H i o n He).
+Qed.
+
+Lemma written_form_class : forall (as_written : stmt -> stmt) (w : nat) (pt : ptable) (it ww : bool),
+    (forall a b, class_doc_equiv a b -> parse_class_node it ww a = parse_class_node it ww b)
+    /\ ((forall i o n, emit_inst w pt KClass i o = Ok n -> class_doc_equiv (as_written n) n) ->
+        WRITTEN_PARSE_law as_written w pt it ww KClass).
+Proof.
+  intros as_written w pt it ww. split; [apply class_doc_equiv_parse|apply WRITTEN_PARSE_class_of_equiv].
+Qed.
+
 (* ------------------------------------------------------------------ *)
 (* non-vacuity                                                          *)
 (* ------------------------------------------------------------------ *)
@@ -557,15 +612,25 @@ Proof.
 Qed.
 
 (* the same truth as an argparse target: in the guard of the argparse round trip, which it passes at the node *)
+Definition node9a : stmt :=
+  match emit_inst 100 [] KArgparse ir9
+                  (opts_inst (Some (SFunc (L "set_cli_args") no_arguments [] [] None)) [L "set_cli_args"] KArgparse) with
+  | Ok n => n
+  | Err _ => SReturn None
+  end.
+
 Example argparse_target_example :
   guard_C09_argparse 100 [] ir9 = true
-  /\ (exists n i', emit_inst 100 [] KArgparse ir9
-                              (opts_inst (Some (SFunc (L "set_cli_args") no_arguments [] [] None))
-                                         [L "set_cli_args"] KArgparse) = Ok n
-                   /\ parse_node_inst false true KArgparse n = Ok i'
-                   /\ map fst (ir_params i') = [L "epochs"; L "name"; L "rate"]
-                   /\ same_interface_inst KArgparse ir9 i' = true).
-Proof. vm_compute. split; [reflexivity|]. eexists. eexists. repeat split; reflexivity. Qed.
+  /\ emit_inst 100 [] KArgparse ir9
+               (opts_inst (Some (SFunc (L "set_cli_args") no_arguments [] [] None)) [L "set_cli_args"] KArgparse)
+     = Ok node9a
+  /\ (exists i', parse_node_inst false true KArgparse node9a = Ok i'
+                 /\ map fst (ir_params i') = [L "epochs"; L "name"; L "rate"]
+                 /\ same_interface_inst KArgparse ir9 i' = true).
+Proof.
+  split; [vm_compute; reflexivity|]. split; [vm_compute; reflexivity|].
+  vm_compute. eexists. split; [reflexivity|]. split; reflexivity.
+Qed.
 
 (* the clause argparse_wrap_neutral is needed: inside guard_C04_ast, a help text longer than the line length is
    re-flowed by word_wrap=True (the option conformance leaves on) and comes back with a line break in it.
@@ -589,3 +654,17 @@ Lemma argparse_wrap_needed :
      | Err _ => False
      end.
 Proof. vm_compute. repeat split; reflexivity. Qed.
+
+(* the function instance composes as well: at this truth the emitted function, parsed at the node, has the same
+   interface (a computed point; for all IRs the round trip of function targets is the premise RT_at) *)
+Example function_target_point :
+  match emit_inst 100 [] KFunction ir9
+                  (opts_inst (Some (SFunc (L "train") no_arguments [] [] None)) [L "train"] KFunction) with
+  | Ok n => match parse_node_inst false true KFunction n with
+            | Ok i' => same_interface_inst KFunction ir9 i' = true
+                       /\ map fst (ir_params i') = [L "epochs"; L "name"; L "rate"]
+            | Err _ => False
+            end
+  | Err _ => False
+  end.
+Proof. vm_compute. split; reflexivity. Qed.
